@@ -64,4 +64,36 @@ theorem C05_after_order_full_false : ¬ C05_after_order_full := by
   revert this
   decide
 
+/-- known-finding signature `C05-order-after-not-strict-weak`: some state of the
+    list has another state of the list in its After relation (so the second,
+    non-strict-weak sorting pass is not the identity), or the Require topology is
+    empty (Require cycle: the order is unsatisfiable). Same predicate in the Go
+    monitor (`sigC05After`). -/
+def sigC05After (sch : Schema) (topo l : S) : Bool :=
+  topo.isEmpty || l.any (fun x => l.any (fun y => (sch.get x).after.contains y))
+
+/-- C05 order clause, partial: outside the signature the handler order is the
+    Require-topology order — a stable sort by topology index, which places every
+    state after the states it Requires whenever the topology does. -/
+theorem C05_order_partial (sch : Schema) (topo l : S) (h : sigC05After sch topo l = false) :
+    sortStates sch topo l = sortRequire topo l ∧
+    (sortStates sch topo l).Pairwise (fun a b => topoKey topo a ≤ topoKey topo b) := by
+  have hfree : ∀ x y, x ∈ sortRequire topo l → y ∈ sortRequire topo l → afterLess sch x y = false := by
+    intro x y hx hy
+    simp only [sortRequire, mem_isort] at hx hy
+    simp only [sigC05After, Bool.or_eq_false_iff, List.any_eq_false] at h
+    have h1 : (sch.get y).after.contains x = false := by
+      have := h.2 y hy
+      simp only [Bool.not_eq_true, List.any_eq_false] at this
+      simpa using this x hx
+    simp only [afterLess, h1, Bool.and_false]
+  have e : sortStates sch topo l = sortRequire topo l := by
+    unfold sortStates
+    exact isort_id_of_false _ _ hfree
+  exact ⟨e, e ▸ sortRequire_sorted topo l⟩
+
+/-- non-vacuity: a list without After relations among its states. -/
+example : sigC05After { states := [{}, { require := [2] }, {}], exc := 0 } [2, 1] [1, 2] = false := by
+  decide
+
 end Am
